@@ -125,8 +125,10 @@ func (c *Collection) StartDCPFeed(
 		// Register the feed with the collection for future notifications:
 		verifPoint("feed.preregister", c.bucket.name, args.ID)
 		c.bucket.mutex.Lock()
-		if c.bucket.closed {
+		if c.bucket.closed || c.bucket.storeClosed.Load() {
 			// A feed without backfill never touches the database, so nothing has noticed yet that this handle is closed.
+			// And the store may have been shut down, through another handle, since the backfill was read: its feeds
+			// have been stopped, one registered now would never be.
 			c.bucket.mutex.Unlock()
 			return ErrBucketClosed
 		}
